@@ -883,21 +883,32 @@ def explore_workload(job):
         if (idx + 1 < n_steps - 1 and o['incs'][idx]['fired']
                 and len(o['incs']) > idx + 1 and rng.random() < 0.08):
             second.append((plan, idx + 1, o['incs'][idx + 1]))
-    # level 2: crash chains - a second fault in the next incarnation, whose
-    # trace was recorded *given* the first fault
-    b2 = max(10, budget // 4)
-    cand = []
-    for plan, idx, info in second:
-        info = dict(info)
-        fl = faults_for(info, 'quick', rng, is_results)
-        fl = [f for f in fl if f['at'] != 'line']
-        rng.shuffle(fl)
-        cand += [(plan, idx, f) for f in fl[:12]]
-    rng.shuffle(cand)
-    for plan, idx, f in cand[:b2]:
-        run(with_fault(plan, idx, f))
-        summ['probes']['crash_chain_2'] = \
-            summ['probes'].get('crash_chain_2', 0) + 1
+    # deeper levels: crash chains - one more fault in the next incarnation,
+    # whose trace was recorded *given* the faults before it (2 consecutive
+    # crashes in the quick tier, up to 4 in the thorough tier)
+    frontier = second
+    max_depth = 2 if tier == 'quick' else 4
+    for depth in range(2, max_depth + 1):
+        b2 = max(10, budget // (4 * (depth - 1)))
+        cand = []
+        for plan, idx, info in frontier:
+            fl = faults_for(dict(info), 'quick', rng, is_results)
+            fl = [f for f in fl if f['at'] != 'line']
+            rng.shuffle(fl)
+            cand += [(plan, idx, f) for f in fl[:12]]
+        rng.shuffle(cand)
+        frontier = []
+        for plan, idx, f in cand[:b2]:
+            p2 = with_fault(plan, idx, f)
+            o = run(p2)
+            key = f'crash_chain_{depth}'
+            summ['probes'][key] = summ['probes'].get(key, 0) + 1
+            if (idx + 1 < n_steps - 1 and len(o['incs']) > idx + 1
+                    and o['incs'][idx]['fired'] and not o['violations']
+                    and rng.random() < 0.4):
+                frontier.append((p2, idx + 1, o['incs'][idx + 1]))
+        if not frontier:
+            break
     return _pack(summ)
 
 
